@@ -702,6 +702,10 @@ fn interp_case(sh: &mut Shard, r: &mut Rng) {
 // Part B: densify
 // =====================================================================================
 /// the linear components of a geometry, in geo's order, as lattice vertices; `shape` = rings per member
+fn tri_raw(a: IP, b: IP, c: IP) -> bool {
+    (a.0 ^ b.1 ^ c.0 ^ c.1) & 1 == 0
+}
+
 fn components(g: &IG) -> Option<(Vec<Vec<IP>>, Vec<usize>)> {
     Some(match g {
         IG::Line(a, b) => (vec![vec![*a, *b]], vec![1]),
@@ -715,7 +719,9 @@ fn components(g: &IG) -> Option<(Vec<Vec<IP>>, Vec<usize>)> {
             (vec![vec![(x1, y0), (x1, y1), (x0, y1), (x0, y0), (x1, y0)]], vec![1])
         }
         // documented: `Triangle::new` stores clockwise input reversed (v3, v2, v1); to_polygon = (0, 1, 2, 0)
-        IG::Triangle(a, b, c) => (vec![if orient_i(*a, *b, *c) < 0 { vec![*c, *b, *a, *c] } else { vec![*a, *b, *c, *a] }], vec![1]),
+        // half of the triangles are built with the tuple constructor (vertices as written, clockwise included), half with
+        // Triangle::new (which re-orders a clockwise triple)
+        IG::Triangle(a, b, c) => (vec![if !tri_raw(*a, *b, *c) && orient_i(*a, *b, *c) < 0 { vec![*c, *b, *a, *c] } else { vec![*a, *b, *c, *a] }], vec![1]),
         _ => return None,
     })
 }
@@ -754,7 +760,8 @@ fn run_densify(g: &IG, lat: &Lat, maxd: f64) -> Result<(Vec<Vec<Coord<f64>>>, Ve
             (c, vec![n])
         }
         IG::Triangle(a, b, c) => {
-            let o = Euclidean.densify(&Triangle::new(lat.c(*a), lat.c(*b), lat.c(*c)), maxd);
+            let t = if tri_raw(*a, *b, *c) { Triangle(lat.c(*a), lat.c(*b), lat.c(*c)) } else { Triangle::new(lat.c(*a), lat.c(*b), lat.c(*c)) };
+            let o = Euclidean.densify(&t, maxd);
             let c = poly_out(&o);
             let n = c.len();
             (c, vec![n])
